@@ -1,27 +1,64 @@
 """C14 — address arithmetic and bitwise operators are exact and range-checked.
-Ops: arith A:ver:val op X   (op in add radd sub rsub iadd isub or and xor shl shr; X = i:<int> | a:<ver>:<val>)
+Ops: arith A:ver:val op X   (op in add radd sub rsub iadd isub or and xor shl shr rshl rshr; X = i:<int> | a:<ver>:<val>)
+       iadd/isub answer  result~receiver~trace  (trace = reads/writes of the receiver's _value/_module in order)
+       shl/shr take any operand (negative counts -> ValueError, an address as count -> TypeError);
+       rshl/rshr are the reflected spellings  n << a, n >> a  (always TypeError)
      ctor X ver|-            (integer branch of IPAddress.__init__)
      conv A:ver:val          (int, __index__, hex, bool)"""
 import operator
 
 from common import Case, W, value_classes, rand_value, errname, tf, harvest_literals, boundary_values
 from netaddr import IPAddress
+from netaddr.ip import BaseIP
 
 ID = 'C14'
 RULE = ('arith: (version, value) from structured value classes x n from {0, +-1, +-2, +-2^31, +-2^32, +-2^127, +-2^128 '
         '(+-1 of each), max-v, -v, v, v-max, their +-1 neighbours, v+max (+1) for the reflected forms, harvested '
         'literals, random of random bit length and sign} x all six +/- forms; bitwise: int operands (0, 1, max, max+1, '
         '-1, ~v, max^v, contiguous masks, negative and over-wide random) and address operands of both versions x or/and/'
-        'xor; shifts: every count 0..width+1 plus 200 and a few larger, with values that just fit / just overflow; '
+        'xor; shifts: every count 0..width+1 plus 200 and a few larger, with values that just fit / just overflow, negative '
+        'counts (-1, -2, -width, -2^64, random), addresses of both versions as the count, and the reflected n << a, '
+        'n >> a; in-place forms run on an instrumented receiver (reads/writes of _value/_module logged and compared with '
+        'the statement-level event log of the model); ints beyond the 4300-digit str limit of CPython (open finding C14-F1); '
         'ctor: boundary and random ints (negative, 0, 2^32-1, 2^32, 2^128-1, 2^128, beyond) x version in {None,4,6}; '
         'conv: value classes. non-trivial = distinct case whose implementation output is not an error')
 
 ARITH = ('add', 'radd', 'sub', 'rsub', 'iadd', 'isub')
 BITS = ('or', 'and', 'xor')
 SHIFTS = ('shl', 'shr')
+RSHIFTS = ('rshl', 'rshr')
+STR_LIMIT = 10 ** 4300      # CPython >= 3.11: repr() of an int with more than 4300 digits raises ValueError
+
+
+def _big(sign, k, low):
+    """an int beyond the str limit, described by small ints (the case args go through json / repr / %d)"""
+    return sign * (STR_LIMIT * k + low)
+
+
+def _dec(x):
+    """decimal text of any int without tripping the interpreter's int->str limit"""
+    if abs(x) < STR_LIMIT:
+        return '%d' % x
+    sign, x = ('-', -x) if x < 0 else ('', x)
+    base, chunks = 10 ** 1000, []
+    while x:
+        x, r = divmod(x, base)
+        chunks.append(r)
+    return sign + '%d' % chunks[-1] + ''.join('%01000d' % c for c in reversed(chunks[:-1]))
+
+
+def _int(x):
+    """an int argument: itself, or ('b', sign, k, low)"""
+    return _big(*x[1:]) if isinstance(x, tuple) else x
+
+
+def _operand_int(x):
+    return x[1] if x[0] == 'i' else (_big(*x[1:]) if x[0] == 'b' else x[2])
 
 
 def _xtok(x):
+    if x[0] == 'b':
+        return 'i:' + _dec(_big(*x[1:]))
     return 'i:%d' % x[1] if x[0] == 'i' else 'a:%d:%d' % (x[1], x[2])
 
 
@@ -46,8 +83,25 @@ def _exact(v, op, n):
     raise KeyError(op)
 
 
+def _refused(op, x):
+    """shift forms without a mathematical result: the error class CPython's int shift raises"""
+    if op in RSHIFTS:
+        return 'type'
+    if op in SHIFTS:
+        if x[0] == 'a':
+            return 'type'
+        if x[1] < 0:
+            return 'value'
+    return None
+
+
 def _arith(ver, v, op, x):
-    n = x[1] if x[0] == 'i' else x[2]
+    n = _operand_int(x)
+    ref = _refused(op, x)
+    if ref is not None:
+        tag = '%s/v%d/%s%s' % (op, ver, {'type': 'address-as-count', 'value': 'negative-count'}[ref] if op in SHIFTS
+                               else 'reflected', '/addr-operand' if x[0] == 'a' else '')
+        return Case('arith A:%d:%d %s %s' % (ver, v, op, _xtok(x)), tag, ('arith', ver, v, op, x))
     exp, _ = _exact(v, op, n)
     zone = 'ok' if 0 <= exp < (1 << W[ver]) else ('neg' if exp < 0 else 'over')
     if 0 <= exp < (1 << W[ver]) and exp in (0, (1 << W[ver]) - 1):
@@ -57,7 +111,7 @@ def _arith(ver, v, op, x):
 
 
 def _ctor(x, ver):
-    return Case('ctor %d %s' % (x, '-' if ver is None else str(ver)), 'ctor/%s' % ('auto' if ver is None else 'v%d' % ver),
+    return Case('ctor %s %s' % (_dec(_int(x)), '-' if ver is None else str(ver)), 'ctor/%s' % ('auto' if ver is None else 'v%d' % ver),
                 ('ctor', x, ver))
 
 
@@ -80,6 +134,17 @@ def corpus():
         for ver in (None, 4, 6):
             cs.append(_ctor(x, ver))
     cs += [_conv(4, 0), _conv(6, 0), _conv(4, 255), _conv(6, m6)]
+    # negative counts, addresses as counts, reflected shifts
+    for ver, m in ((4, m4), (6, m6)):
+        for op in SHIFTS:
+            cs += [_arith(ver, 5, op, ('i', -1)), _arith(ver, 0, op, ('i', -1)), _arith(ver, m, op, ('i', -W[ver])),
+                   _arith(ver, 5, op, ('a', ver, 2)), _arith(ver, 5, op, ('a', 10 - ver, 0)), _arith(ver, 0, op, ('a', ver, 0))]
+        for op in RSHIFTS:
+            cs += [_arith(ver, 5, op, ('i', 1)), _arith(ver, 0, op, ('i', 0)), _arith(ver, 3, op, ('i', -1)),
+                   _arith(ver, 3, op, ('i', 1 << 140))]
+    # open finding C14-F1: the AddrFormatError message formats the int with %r
+    cs += [_ctor(('b', 1, 1, 0), None), _ctor(('b', 1, 1, 0), 4), _ctor(('b', -1, 1, 0), 6), _ctor(('b', 1, 0, STR_LIMIT - 1), None),
+           _arith(4, 1, 'shl', ('i', 14285)), _arith(4, 1, 'shl', ('i', 14284)), _arith(6, 1, 'or', ('b', 1, 1, 0))]
     return cs
 
 
@@ -159,6 +224,20 @@ def generate(rng, tier):
                 v = min(max(v, 0), m)
                 for op in SHIFTS:
                     cases.append(_arith(ver, v, op, ('i', s)))
+        # ---- shifts without a mathematical result: negative counts, addresses as counts, reflected
+        vals = value_classes(rng, w, n_random=2 * mult)
+        for v in rng.sample(vals, min(len(vals), 10 * mult)) + [0, 1, m]:
+            negs = [-1, -2, -w, -w - 1, -(1 << 64), -rng.randrange(1, 200), -rng.getrandbits(rng.randrange(1, 90)) - 1]
+            addrs = [('a', ver, 0), ('a', ver, 1), ('a', ver, rng.randrange(0, w + 2)), ('a', ver, rand_value(rng, w)),
+                     ('a', 10 - ver, rng.randrange(0, 40)), ('a', 10 - ver, rand_value(rng, W[10 - ver]))]
+            for op in SHIFTS:
+                for n in rng.sample(negs, 3):
+                    cases.append(_arith(ver, v, op, ('i', n)))
+                for x in rng.sample(addrs, 2):
+                    cases.append(_arith(ver, v, op, x))
+            for op in RSHIFTS:
+                for n in rng.sample([0, 1, -1, 2, w, m, -m, _rand_signed(rng)], 2):
+                    cases.append(_arith(ver, v, op, ('i', n)))
         # ---- observers
         vc = value_classes(rng, w)
         for v in rng.sample(vc, min(len(vc), 20 * mult)):
@@ -178,6 +257,12 @@ def generate(rng, tier):
     for x in xs:
         for ver in (None, 4, 6):
             cases.append(_ctor(x, ver))
+    # ---- beyond CPython's int->str limit (open finding C14-F1), and just inside it
+    k, low = rng.randrange(1, 10), rng.getrandbits(64)
+    cases += [_ctor(('b', 1, k, low), rng.choice((None, 4, 6))), _ctor(('b', -1, k, low), rng.choice((4, 6))),
+              _ctor(('b', 1, 0, STR_LIMIT - 1 - low), None),
+              _arith(4, rng.randrange(1, 1 << 32), 'shl', ('i', 14285 + rng.randrange(0, 500))),
+              _arith(6, rng.randrange(1, 1 << 128), 'xor', ('b', 1, k, low))]
     return cases
 
 
@@ -187,15 +272,50 @@ def _show(a):
     return '%d:%d' % (a.version, int(a))
 
 
+# An IPAddress whose two attributes are watched: every read / write of `_value` and `_module` is
+# appended to _LOG as (id(object), event).  The slots of BaseIP still hold the data; the properties
+# below shadow the slot descriptors in the subclass only.
+_LOG = []
+_SLOT_VALUE = BaseIP.__dict__['_value']
+_SLOT_MODULE = BaseIP.__dict__['_module']
+
+
+class Watched(IPAddress):
+    __slots__ = ()
+
+    def _get_value(self):
+        r = _SLOT_VALUE.__get__(self, type(self))
+        _LOG.append((id(self), 'rv:%d' % r if isinstance(r, int) else 'rv:?'))
+        return r
+
+    def _set_value(self, x):
+        _LOG.append((id(self), 'wv:%d' % x if isinstance(x, int) else 'wv:?'))
+        _SLOT_VALUE.__set__(self, x)
+
+    _value = property(_get_value, _set_value)
+
+    def _get_module(self):
+        _LOG.append((id(self), 'rm'))
+        return _SLOT_MODULE.__get__(self, type(self))
+
+    def _set_module(self, x):
+        _LOG.append((id(self), 'wm'))
+        _SLOT_MODULE.__set__(self, x)
+
+    _module = property(_get_module, _set_module)
+
+
 def impl(c):
     a = c.args
     if a[0] == 'arith':
         _, ver, v, op, x = a
-        ip = IPAddress(v, ver)
-        if x[0] == 'i':
-            other = x[1]
+        ip = Watched(v, ver)
+        me = id(ip)
+        if x[0] in ('i', 'b'):
+            other = _operand_int(x)
         else:
             other = IPAddress(x[2], x[1])
+        del _LOG[:]
         try:
             if op == 'add':
                 r = ip + other
@@ -221,20 +341,32 @@ def impl(c):
                 r = ip << other
             elif op == 'shr':
                 r = ip >> other
+            elif op == 'rshl':
+                r = other << ip
+            elif op == 'rshr':
+                r = other >> ip
             else:
                 raise KeyError(op)
+            trace = [ev for (who, ev) in _LOG if who == me]      # before anything below looks at the objects
             if not isinstance(r, IPAddress):
                 res = '!notaddress:' + type(r).__name__
             else:
                 res = _show(r)
         except Exception as e:
+            trace = [ev for (who, ev) in _LOG if who == me]
             res = '!' + errname(e)
+        del _LOG[:]
         out = res + '~' + _show(ip)
+        if op in ('iadd', 'isub'):
+            out += '~' + ','.join(trace)
+        elif any(ev[0] == 'w' for ev in trace):
+            out += '~left-operand-written:' + ','.join(trace)
         if x[0] == 'a' and (other.version, int(other)) != (x[1], x[2]):
             out += '~right-operand-changed:' + _show(other)
         return out
     if a[0] == 'ctor':
         _, x, ver = a
+        x = _int(x)
         try:
             r = IPAddress(x) if ver is None else IPAddress(x, ver)
             return _show(r)
@@ -254,16 +386,32 @@ def oracle(c, got):
     if a[0] == 'arith':
         _, ver, v, op, x = a
         m = (1 << W[ver]) - 1
-        n = x[1] if x[0] == 'i' else x[2]
+        n = _operand_int(x)
+        ref = _refused(op, x)
+        if ref is not None:
+            want = '!%s~%d:%d' % (ref, ver, v)
+            return None if got == want else '%s with %s gave %s, CPython int shift semantics give %s' % (op, x, got, want)
         exp, err = _exact(v, op, n)
         if 0 <= exp <= m:
             after = exp if op in ('iadd', 'isub') else v
             want = '%d:%d~%d:%d' % (ver, exp, ver, after)
         else:
             want = '!%s~%d:%d' % (err, ver, v)
+        if op in ('iadd', 'isub'):
+            # result and receiver as above; of the trace the property needs: the receiver is written exactly once,
+            # with the exact result, on success - and not at all when the operator raises
+            parts = got.split('~')
+            if len(parts) != 3:
+                return '%s gave %s, expected result~receiver~trace' % (op, got)
+            writes = [e for e in parts[2].split(',') if e.startswith('w')]
+            wantw = ['wv:%d' % exp] if 0 <= exp <= m else []
+            if '~'.join(parts[:2]) != want:
+                return '%s gave %s, exact arithmetic gives %s' % (op, got, want)
+            return None if writes == wantw else '%s wrote %s to the receiver, expected %s' % (op, writes, wantw)
         return None if got == want else '%s gave %s, exact arithmetic gives %s' % (op, got, want)
     if a[0] == 'ctor':
         _, x, ver = a
+        x = _int(x)
         if ver is None:
             if 0 <= x < (1 << 32):
                 want = '4:%d' % x
@@ -286,14 +434,33 @@ def oracle(c, got):
     return None
 
 
+def known(c):
+    """C14-F1: an out-of-range int with more than 4300 decimal digits reaches `'... %r' % addr` in the constructor"""
+    a = c.args
+    if a[0] == 'ctor':
+        return 'C14-F1' if abs(_int(a[1])) >= STR_LIMIT else None
+    if a[0] == 'arith':
+        _, ver, v, op, x = a
+        if op in BITS + SHIFTS and _refused(op, x) is None:
+            n = _operand_int(x)
+            if op in SHIFTS and n > 20000:
+                return None
+            exp, _ = _exact(v, op, n)
+            return 'C14-F1' if abs(exp) >= STR_LIMIT else None
+    return None
+
+
 def repro(c):
     a = c.args
     if a[0] == 'arith':
         _, ver, v, op, x = a
-        o = repr(x[1]) if x[0] == 'i' else 'IPAddress(%d, %d)' % (x[2], x[1])
+        o = (repr(x[1]) if x[0] == 'i' else '(%d * (10**4300 * %d + %d))' % x[1:] if x[0] == 'b'
+             else 'IPAddress(%d, %d)' % (x[2], x[1]))
         expr = {'add': 'a + %s', 'radd': '%s + a', 'sub': 'a - %s', 'rsub': '%s - a', 'iadd': 'a += %s', 'isub': 'a -= %s',
-                'or': 'a | %s', 'and': 'a & %s', 'xor': 'a ^ %s', 'shl': 'a << %s', 'shr': 'a >> %s'}[op] % o
+                'or': 'a | %s', 'and': 'a & %s', 'xor': 'a ^ %s', 'shl': 'a << %s', 'shr': 'a >> %s',
+                'rshl': '%s << a', 'rshr': '%s >> a'}[op] % o
         return 'a = IPAddress(%d, %d); %s   # then look at the result and at a' % (v, ver, expr)
     if a[0] == 'ctor':
-        return 'IPAddress(%d)' % a[1] if a[2] is None else 'IPAddress(%d, %d)' % (a[1], a[2])
+        xs = '%d * (10**4300 * %d + %d)' % a[1][1:] if isinstance(a[1], tuple) else '%d' % a[1]
+        return 'IPAddress(%s)' % xs if a[2] is None else 'IPAddress(%s, %d)' % (xs, a[2])
     return 'a = IPAddress(%d, %d); int(a), a.__index__(), hex(a), bool(a)' % (a[2], a[1])
